@@ -503,7 +503,8 @@ def monitor_answers(w: NodeWorld):
                 out.append(("duplicate-answer", c.idx,
                             f"conn {c.idx}: second answer {f.brief()} for request {k}"))
             else:
-                trig = "an answer" if (last_in is not None and not last_in.is_request) else "no matching request"
+                echoed = any((not g.is_request) and g.key() == k for g in c.in_frames if g.t <= t)
+                trig = "an answer" if echoed else "no matching request"
                 out.append(("unsolicited-answer/" + ("to-answer" if trig == "an answer" else "no-request"), c.idx,
                             f"conn {c.idx}: node sent answer {f.brief()} {k} in reaction to {trig}"
                             f" (last received: {last_in.brief() if last_in else None})"))
